@@ -262,7 +262,7 @@ class _RHSValueCompiler(_ValueCompiler):
         offset_mask = (1 << len(value.offset)) - 1
         offset = f"({value.stride} * ({offset_mask:#x} & {self.rrhs(value.offset)}))"
         return f"({(1 << value.width) - 1} & " \
-               f"{self(value.value)} >> {offset})"
+               f"{self.sign(value.value)} >> {offset})"
 
     def on_Concat(self, value):
         gen_parts = []
